@@ -118,4 +118,21 @@ def ofBytesBE (bs : List UInt8) : Int × Nat :=
 def linspace {α : Type} [Add α] [Sub α] [Mul α] [Div α] [NatCast α] (a b : α) (n i : Nat) : α :=
   if n ≤ 1 then a else a + (i : α) * ((b - a) / ((n : α) - (1 : Nat)))
 
+/-! ## Absolute time track
+
+`time_track(absolute_time=True, accuracy=u)` returns `start_time + (relative_time * unit_correction).astype('timedelta64[u]')`:
+the relative time of every sample is scaled to units of the accuracy (`R` per second) and converted by the C cast, i.e. truncated
+toward zero, then added to the start instant. -/
+
+/-- `x.astype('timedelta64[u]')` of a finite float: truncation toward zero. -/
+def truncRat (x : Rat) : Int := if 0 ≤ x then x.floor else x.ceil
+
+/-- Sample of the absolute track, in units of the accuracy, for a start instant `startUnits` (already in those units) and a relative
+time `rel` in seconds. -/
+def absTrack (startUnits : Int) (R : Nat) (rel : Rat) : Int := startUnits + truncRat (rel * (R : Rat))
+
+/-- What the code must NOT do: convert the start offset and the per-sample offsets to units separately. -/
+def absTrackSplit (startUnits : Int) (R : Nat) (off inc : Rat) (i : Nat) : Int :=
+  startUnits + truncRat (off * (R : Rat)) + truncRat ((i : Rat) * inc * (R : Rat))
+
 end Tdms.Model.Timestamp
